@@ -18,8 +18,8 @@
    * The thread count read by `par_batch_multiply` (`available_parallelism()`) is the explicit parameter `nt`.
    * Sizes, degrees, indices and exponents are `Z`; `nat` appears only as list length / fuel.
    * Naming: every model function is `poly_<rust name>`; `_gen` = the mixed-field (three records) form;
-     `_v0` = faithful to the pinned tree, `_v1` = behaviour after the repair of a C17 finding; the unsuffixed
-     alias (e.g. `poly_slow_square`) is what callers and the oracle use - see "VERSION SWITCHES" below. *)
+     `_v0` = the code before the repair commit 0fd3b2b of four C17 defects, `_v1` = the current code; the
+     unsuffixed alias (e.g. `poly_slow_square`) is what callers and the oracle use - see "VERSION SWITCHES" below. *)
 From Coq Require Import ZArith Bool List.
 From TF Require Import Word BFieldGen BField XField FieldOps PolyGen.
 Import ListNotations.
@@ -409,18 +409,22 @@ Section Same.
 End Same.
 
 (* ------------------------------------------------------------------ VERSION SWITCHES
-   The three findings of C17 on the pinned tree (DESIGN section 5).  The aliases below are what `pow`, the oracle
-   and the importing models (C08/C09) use.  After a `fix:` commit in /repo the lead switches the alias from
-   `_v0` to `_v1` (and the corresponding `_refuted` theorem in props/C17.v is replaced by the positive one). *)
-Definition poly_slow_square {F} (o : fops F) := poly_slow_square_v0 o.
-Definition poly_square {F} (o : fops F) := poly_square_v0 o.
+   Four C17 defects of the originally pinned tree (DESIGN section 5) were repaired in /repo by commit 0fd3b2b
+   ("fix: polynomial squaring, truncation and hashing ignore stored leading zeros"): slow_square, the schoolbook arm
+   of square, truncate and Hash now go through `self.coefficients()` (the normalised slice).
+     `_v0` = the code BEFORE that commit (kept for the historical `*_v0_refuted` lemmas),
+     `_v1` = the code of the current tree.
+   The unsuffixed aliases are what `pow`, the oracle and the importing models (C08/C09) use. *)
 Definition poly_truncate_v0 {F} (o : fops F) (l : list F) (k : Z) : option (list F) := poly_truncate_raw l k.
 Definition poly_truncate_v1 {F} (o : fops F) (l : list F) (k : Z) : option (list F) :=
   poly_truncate_raw (poly_normalize o l) k.
+(* impl Hash: the list fed to the hasher (v0: `self.coefficients.hash(state)`, v1: `self.coefficients().hash(state)`) *)
 Definition poly_hash_feed_v0 {F} (o : fops F) (l : list F) : list F := l.
 Definition poly_hash_feed_v1 {F} (o : fops F) (l : list F) : list F := poly_normalize o l.
-Definition poly_truncate {F} (o : fops F) := poly_truncate_v0 o.
-Definition poly_hash_feed {F} (o : fops F) := poly_hash_feed_v0 o.
+Definition poly_slow_square {F} (o : fops F) := poly_slow_square_v1 o.
+Definition poly_square {F} (o : fops F) := poly_square_v1 o.
+Definition poly_truncate {F} (o : fops F) := poly_truncate_v1 o.
+Definition poly_hash_feed {F} (o : fops F) := poly_hash_feed_v1 o.
 
 Section Pow.
   Context {F : Type} (o : fops F).
